@@ -547,3 +547,310 @@ Section Done.
     intros Hv w. unfold step_done. apply is_complete_spec. apply run_a_Inv; [exact Hv|]. simpl. apply Inv_init.
   Qed.
 End Done.
+
+(** ** The multi-instance environment keeps its configuration *)
+
+Record keeps_config (cfg : config) (b : nat) (p : params) (m : menv) : Prop := {
+  kc_p : m_p m = p;
+  kc_builder : m_builder m = b;
+  kc_feats : m_feats m = c_feats cfg;
+  kc_reward : m_reward m = c_reward cfg;
+  kc_updater : m_updater m = c_updater cfg;
+  kc_render_mode : m_render_mode m = c_render_mode cfg;
+  kc_render_cfg : m_render_cfg m = c_render_cfg cfg;
+  kc_inner : i_cfg (m_inner m) = cfg
+}.
+
+(** the inner environment was built by [SingleJobShopGraphEnv.__init__] from a
+    graph of the configured builder and only [remove_node] / [reset] happened since *)
+Record inner_wf (b : nat) (e : inner) : Prop := {
+  iw_built : build_by_code b (g_inst (i_graph0 e)) = Some (i_graph0 e);
+  iw_space : i_space e = observation_space (i_graph0 e)
+                           (composite_shapes (g_inst (i_graph0 e)) (c_feats (i_cfg e)));
+  iw_anvec : i_anvec e = action_nvec (g_inst (i_graph0 e));
+  iw_graph : exists l, i_graph e = run_removes (i_graph0 e) l
+}.
+
+Lemma build_inner_facts b cfg I e :
+  build_inner b cfg I = Some e ->
+  i_cfg e = cfg /\ g_inst (i_graph0 e) = I /\ inner_wf b e /\ i_graph e = i_graph0 e.
+Proof.
+  unfold build_inner. destruct (build_by_code b I) as [g|] eqn:E; [|discriminate].
+  intros H. inversion H; subst; clear H. destruct (build_by_code_ok _ _ _ E) as [_ Hi].
+  simpl. split; [reflexivity|]. split; [exact Hi|]. split; [|reflexivity].
+  constructor; simpl; try reflexivity.
+  - rewrite Hi. exact E.
+  - exists []. reflexivity.
+Qed.
+
+Theorem multi_init_config p b cfg g m g' :
+  multi_init p b cfg g = Ok (Some m) g' ->
+  keeps_config cfg b p m /\ inner_wf b (m_inner m) /\
+  m_space m = i_space (m_inner m) /\ m_anvec m = i_anvec (m_inner m) /\
+  exists x, generate p (Some (jhi p)) (Some (mhi p)) g = Ok x g' /\ g_inst (i_graph0 (m_inner m)) = snd x.
+Proof.
+  unfold multi_init, bind, ret.
+  destruct (generate p (Some (jhi p)) (Some (mhi p)) g) as [x g1|e g1|] eqn:Eg; try discriminate.
+  destruct (build_inner b cfg (snd x)) as [e|] eqn:Eb; [|discriminate].
+  intros H. inversion H; subst; clear H.
+  destruct (build_inner_facts _ _ _ _ Eb) as (Hc & Hi & Hw & _).
+  split; [constructor; simpl; auto|]. split; [exact Hw|]. split; [reflexivity|]. split; [reflexivity|].
+  exists x. auto.
+Qed.
+
+Lemma config_eta cfg :
+  mkcfg (c_feats cfg) (c_reward cfg) (c_updater cfg) (c_filter cfg) (c_render_mode cfg)
+        (c_render_cfg cfg) (c_padding cfg) = cfg.
+Proof. destruct cfg; reflexivity. Qed.
+
+Lemma reset_config_repaired cfg b p m : keeps_config cfg b p m -> reset_config true m = cfg.
+Proof.
+  intros [K1 K2 K3 K4 K5 K6 K7 K8]. unfold reset_config. rewrite K3, K4, K5, K6, K7, K8. apply config_eta.
+Qed.
+
+Theorem multi_reset_config cfg b p m g m' g' :
+  keeps_config cfg b p m ->
+  multi_reset true m g = Ok (Some m') g' ->
+  keeps_config cfg b p m' /\ inner_wf b (m_inner m') /\
+  m_space m' = m_space m /\ m_anvec m' = m_anvec m /\
+  i_graph (m_inner m') = i_graph0 (m_inner m') /\
+  exists x, generate p None None g = Ok x g' /\ g_inst (i_graph0 (m_inner m')) = snd x.
+Proof.
+  intros K. pose proof (reset_config_repaired _ _ _ _ K) as Hrc. destruct K as [K1 K2 K3 K4 K5 K6 K7 K8].
+  unfold multi_reset, bind, ret. rewrite K1, K2, Hrc.
+  destruct (generate p None None g) as [x g1|e g1|] eqn:Eg; try discriminate.
+  destruct (build_inner b cfg (snd x)) as [e|] eqn:Eb; [|discriminate].
+  intros H. inversion H; subst; clear H.
+  destruct (build_inner_facts _ _ _ _ Eb) as (Hc & Hi & Hw & Hg).
+  split; [constructor; simpl; auto|]. split; [exact Hw|]. split; [reflexivity|]. split; [reflexivity|].
+  split; [exact Hg|]. exists x. auto.
+Qed.
+
+(** every state of the multi environment: constructed, then any sequence of
+    resets (on whatever the generator's RNG returns), steps ([remove_node]
+    calls on the inner graph) and resets of the inner environment *)
+Inductive reachable (cfg : config) (b : nat) (p : params) : menv -> Prop :=
+| reach_init g m g' : multi_init p b cfg g = Ok (Some m) g' -> reachable cfg b p m
+| reach_reset m g m' g' : reachable cfg b p m -> multi_reset true m g = Ok (Some m') g' -> reachable cfg b p m'
+| reach_step m l : reachable cfg b p m -> reachable cfg b p (set_inner m (inner_removes (m_inner m) l)).
+
+Lemma inner_wf_removes b e l : inner_wf b e -> inner_wf b (inner_removes e l).
+Proof.
+  intros [W1 W2 W3 [l0 W4]]. constructor; simpl; auto.
+  exists (l0 ++ l). rewrite W4. unfold run_removes. rewrite fold_left_app. reflexivity.
+Qed.
+
+Theorem reachable_keeps_config cfg b p m :
+  reachable cfg b p m -> keeps_config cfg b p m /\ inner_wf b (m_inner m).
+Proof.
+  induction 1 as [g m g' Hi|m g m' g' Hr IH Hs|m l Hr IH].
+  - destruct (multi_init_config _ _ _ _ _ _ Hi) as (A & B & _). auto.
+  - destruct IH as [K _]. destruct (multi_reset_config _ _ _ _ _ _ _ K Hs) as (A & B & _). auto.
+  - destruct IH as [[K1 K2 K3 K4 K5 K6 K7 K8] W]. split.
+    + constructor; simpl; auto.
+    + simpl. apply inner_wf_removes. exact W.
+Qed.
+
+(** ** Padding to the declared sizes *)
+
+Lemma ftype_eqb_eq a b : ftype_eqb a b = true <-> a = b.
+Proof. destruct a, b; simpl; split; intros H; try reflexivity; discriminate. Qed.
+
+Fixpoint nodup_keysb (sh : list (ftype * (nat * nat))) : bool :=
+  match sh with
+  | [] => true
+  | (t, _) :: r => negb (existsb (fun x => ftype_eqb t (fst x)) r) && nodup_keysb r
+  end.
+
+Lemma lookup_shape_in sh : nodup_keysb sh = true ->
+  forall t s, In (t, s) sh -> lookup_shape t sh = Some s.
+Proof.
+  induction sh as [|[t0 s0] r IH]; intros Hn t s Hin; [contradiction|].
+  simpl in Hn. apply andb_true_iff in Hn. destruct Hn as [Hn1 Hn2]. simpl.
+  destruct Hin as [Heq|Hin].
+  - inversion Heq; subst. replace (ftype_eqb t t) with true by (symmetry; apply ftype_eqb_eq; reflexivity). reflexivity.
+  - destruct (ftype_eqb t t0) eqn:E.
+    + apply ftype_eqb_eq in E. subst t0. exfalso.
+      apply negb_true_iff in Hn1. assert (existsb (fun x => ftype_eqb t (fst x)) r = true); [|congruence].
+      apply existsb_exists. exists (t, s). split; [exact Hin|]. simpl. apply ftype_eqb_eq. reflexivity.
+    + apply IH; assumption.
+Qed.
+
+(** the padded matrices, entry by entry of the dictionary *)
+Fixpoint padded_feats {A} (fill : A) (osh : list (ftype * (nat * nat)))
+         (fs : list (ftype * list (list A))) : list (ftype * list (list A)) :=
+  match osh, fs with
+  | (_, (r, c)) :: osh', (t, m) :: fs' => (t, pad2_result fill r c m) :: padded_feats fill osh' fs'
+  | _, _ => []
+  end.
+
+Lemma pad_feats_ok {A} (fill : A) (full : list (ftype * (nat * nat))) :
+  forall ish osh fs,
+    feats_fit ish osh = true -> feats_contains ish fs = true ->
+    (forall t s, In (t, s) osh -> lookup_shape t full = Some s) ->
+    pad_feats fill full fs = Some (padded_feats fill osh fs) /\
+    feats_contains osh (padded_feats fill osh fs) = true.
+Proof.
+  induction ish as [|[t [r c]] ish IH]; intros osh fs Hfit Hc Hl.
+  - destruct osh; [|discriminate]. destruct fs; [|discriminate]. simpl. auto.
+  - destruct osh as [|[t' [r' c']] osh]; [discriminate|]. destruct fs as [|[t2 m] fs]; [discriminate|].
+    simpl in Hfit, Hc. repeat rewrite andb_true_iff in Hfit. repeat rewrite andb_true_iff in Hc.
+    destruct Hfit as [[[Ht Hr] Hcc] Hfit]. destruct Hc as [[Ht2 Hb] Hc].
+    apply ftype_eqb_eq in Ht. apply ftype_eqb_eq in Ht2. subst t' t2.
+    apply Nat.leb_le in Hr. apply Nat.eqb_eq in Hcc. subst c'.
+    destruct (IH osh fs Hfit Hc (fun t0 s0 H0 => Hl t0 s0 (or_intror H0))) as [IH1 IH2].
+    destruct (box_rect _ _ _ Hb) as (Hrect & Hlen & _). pose proof (width_le_of_box _ _ _ Hb) as Hw.
+    simpl. rewrite (Hl t (r', c) (or_introl eq_refl)).
+    assert (Hp : pad2 fill r' c m = Some (pad2_result fill r' c m)).
+    { unfold pad2. destruct (Nat.ltb_spec r' (length m)) as [Ha|Ha]; [lia|].
+      destruct (Nat.ltb_spec c (width m)) as [Hb'|Hb']; [lia|]. reflexivity. }
+    rewrite Hp, IH1. split; [reflexivity|].
+    rewrite IH2, andb_true_r. apply andb_true_iff. split; [apply ftype_eqb_eq; reflexivity|].
+    apply box_contains_spec. apply pad2_shape; [exact Hrect|lia|exact Hw].
+Qed.
+
+Theorem multi_obs_in_space_partial {A : Type} (neg1 : A) (b : nat) (m : menv)
+        (feats : list (ftype * list (list A))) :
+  let e := m_inner m in
+  let g := i_graph e in
+  inner_wf b e ->
+  c_padding (i_cfg e) = true ->
+  space_fits (i_space e) (m_space m) = true ->          (* the explicit hypothesis *)
+  nodup_keysb (sp_feats (m_space m)) = true ->
+  feats_contains (sp_feats (i_space e)) feats = true ->
+  let o := mkobs (g_removed g ++ repeat true (sp_nodes (m_space m) - length (g_removed g)))
+                 (edge_rows g (sp_edges (m_space m) - length (edge_view g)))
+                 (padded_feats neg1 (sp_feats (m_space m)) feats) in
+  multi_observe neg1 m feats = Some o /\ obs_contains (m_space m) o = true /\
+  (length (g_removed g) <= sp_nodes (m_space m))%nat /\
+  (length (edge_view g) <= sp_edges (m_space m))%nat.
+Proof.
+  intros e g [W1 W2 W3 [l W4]] Hpad Hfit Hnd Hfc.
+  destruct (build_by_code_ok _ _ _ W1) as [Hg0 _].
+  unfold space_fits in Hfit. rewrite !andb_true_iff in Hfit. destruct Hfit as [[HN HE] HF].
+  apply Nat.leb_le in HN. apply Nat.leb_le in HE.
+  rewrite W2 in Hfc. cbn [sp_feats observation_space] in Hfc.
+  pose proof (single_obs_in_space (i_graph0 e) (composite_shapes (g_inst (i_graph0 e)) (c_feats (i_cfg e)))
+                                  l feats Hg0 Hfc) as Hs. cbn zeta in Hs.
+  rewrite <- W2 in Hs. rewrite <- W4 in Hs. fold g in Hs.
+  destruct Hs as (Hlen & Hmask & Hnodes & Hobs & Hin).
+  destruct (run_removes_facts l (i_graph0 e) Hg0) as (Hg' & Hn & _). rewrite <- W4 in Hg', Hn. fold g in Hg', Hn.
+  set (sp := m_space m) in *. set (si := i_space e) in *.
+  assert (HlenN : (length (g_removed g) <= sp_nodes sp)%nat) by lia.
+  assert (HlenE : (length (edge_view g) <= sp_edges sp)%nat) by lia.
+  assert (HF' : feats_fit (composite_shapes (g_inst (i_graph0 e)) (c_feats (i_cfg e))) (sp_feats sp) = true).
+  { rewrite W2 in HF. cbn [sp_feats observation_space] in HF. exact HF. }
+  destruct (pad_feats_ok neg1 (sp_feats sp) _ (sp_feats sp) feats HF' Hfc (lookup_shape_in _ Hnd)) as [P1 P2].
+  intros o. split; [|split; [|split; [exact HlenN|exact HlenE]]].
+  - unfold multi_observe, inner_observe. fold e. rewrite Hpad. fold g si. rewrite Hobs.
+    unfold multi_pad. cbn [ob_removed ob_edge ob_feats]. fold sp.
+    unfold pad1. destruct (Nat.ltb_spec (sp_nodes sp) (length (g_removed g))) as [Hlt|_]; [lia|].
+    unfold edge_rows at 1. rewrite pad2_two_rows by (rewrite app_length, map_length, repeat_length; lia).
+    rewrite P1. unfold o, edge_rows. f_equal. f_equal.
+    rewrite !app_length, !map_length, !repeat_length, <- !app_assoc, <- !repeat_app.
+    replace (sp_edges si - length (edge_view g) + (sp_edges sp - (length (edge_view g) + (sp_edges si - length (edge_view g)))))%nat
+      with (sp_edges sp - length (edge_view g))%nat by lia. reflexivity.
+  - unfold obs_contains, o. cbn [ob_removed ob_edge ob_feats]. rewrite !andb_true_iff. split; [split|].
+    + unfold mask_contains. apply Nat.eqb_eq. rewrite app_length, repeat_length. lia.
+    + apply edge_rows_contained; [exact Hg'| |lia].
+      rewrite <- (ok_removed _ Hg'). exact HlenN.
+    + exact P2.
+Qed.
+
+(** when an inner size exceeds the declared one the padding raises *)
+Theorem multi_observe_raises_on_edges {A : Type} (neg1 : A) (b : nat) (m : menv)
+        (feats : list (ftype * list (list A))) :
+  inner_wf b (m_inner m) -> c_padding (i_cfg (m_inner m)) = true ->
+  (sp_edges (m_space m) < sp_edges (i_space (m_inner m)))%nat ->
+  multi_observe neg1 m feats = None.
+Proof.
+  intros [W1 W2 W3 [l W4]] Hpad Hlt. destruct (build_by_code_ok _ _ _ W1) as [Hg0 _].
+  destruct (run_removes_facts l (i_graph0 (m_inner m)) Hg0) as (Hg' & _ & _ & _ & Hle).
+  rewrite <- W4 in Hg', Hle.
+  unfold multi_observe, inner_observe, get_observation. rewrite Hpad.
+  rewrite get_edge_index_padded.
+  2:{ rewrite (edge_view_length _ Hg'). rewrite W2. simpl. exact Hle. }
+  unfold multi_pad. cbn [ob_removed ob_edge ob_feats].
+  destruct (pad1 true (sp_nodes (m_space m)) (g_removed (i_graph (m_inner m)))); [|reflexivity].
+  assert (Hn : pad2 (-1) 2 (sp_edges (m_space m))
+                    (edge_rows (i_graph (m_inner m))
+                       (sp_edges (i_space (m_inner m)) - length (edge_view (i_graph (m_inner m))))) = None).
+  { apply pad2_none. right. unfold edge_rows. cbn [width].
+    rewrite app_length, map_length, repeat_length.
+    assert (length (edge_view (i_graph (m_inner m))) <= sp_edges (i_space (m_inner m)))%nat.
+    { rewrite (edge_view_length _ Hg'). rewrite W2. simpl. exact Hle. }
+    lia. }
+  rewrite Hn. reflexivity.
+Qed.
+
+(** ** The composite's keys are pairwise distinct (a Python dict) *)
+
+Lemma add_key_keys t acc :
+  map fst (add_key t acc) =
+  if existsb (ftype_eqb t) (map fst acc) then map fst acc else map fst acc ++ [t].
+Proof.
+  induction acc as [|[t' n] r IH]; simpl; [reflexivity|].
+  destruct (ftype_eqb t t') eqn:E; simpl; [reflexivity|]. rewrite IH.
+  destruct (existsb (ftype_eqb t) (map fst r)); reflexivity.
+Qed.
+
+Lemma NoDup_snoc {A} (l : list A) x : NoDup l -> ~ In x l -> NoDup (l ++ [x]).
+Proof.
+  induction l as [|y t IH]; intros Hn Hx; simpl.
+  - constructor; [intros []|constructor].
+  - inversion Hn as [|? ? Hy Ht]; subst. constructor.
+    + intros Hin. apply in_app_or in Hin. destruct Hin as [Hin|[Hin|[]]]; [contradiction|].
+      subst. apply Hx. left. reflexivity.
+    + apply IH; [exact Ht|]. intros Hin. apply Hx. right. exact Hin.
+Qed.
+
+Lemma add_key_nodup t acc : NoDup (map fst acc) -> NoDup (map fst (add_key t acc)).
+Proof.
+  intros H. rewrite add_key_keys. destruct (existsb (ftype_eqb t) (map fst acc)) eqn:E; [exact H|].
+  apply NoDup_snoc; [exact H|].
+  intros Hin. assert (existsb (ftype_eqb t) (map fst acc) = true); [|congruence].
+  apply existsb_exists. exists t. split; [exact Hin|apply ftype_eqb_eq; reflexivity].
+Qed.
+
+Lemma composite_cols_nodup cfgs : NoDup (map fst (composite_cols cfgs)).
+Proof.
+  unfold composite_cols. generalize (concat (map fo_types cfgs)) as ts.
+  assert (Hgen : forall ts acc, NoDup (map fst acc) ->
+            NoDup (map fst (fold_left (fun a t => add_key t a) ts acc))).
+  { induction ts as [|t r IH]; intros acc H; simpl; [exact H|]. apply IH. apply add_key_nodup. exact H. }
+  intros ts. apply Hgen. constructor.
+Qed.
+
+Lemma nodup_keysb_of_NoDup sh : NoDup (map fst sh) -> nodup_keysb sh = true.
+Proof.
+  induction sh as [|[t s] r IH]; intros H; simpl; [reflexivity|].
+  inversion H as [|? ? Hni Hnd]; subst. rewrite (IH Hnd), andb_true_r. apply negb_true_iff.
+  destruct (existsb (fun x => ftype_eqb t (fst x)) r) eqn:E; [|reflexivity].
+  apply existsb_exists in E. destruct E as ([t' s'] & Hin & Ht). simpl in Ht. apply ftype_eqb_eq in Ht. subst t'.
+  exfalso. apply Hni. change t with (fst (t, s')). apply in_map. exact Hin.
+Qed.
+
+Lemma composite_shapes_nodup I cfgs : nodup_keysb (composite_shapes I cfgs) = true.
+Proof.
+  apply nodup_keysb_of_NoDup. unfold composite_shapes. rewrite map_map. simpl.
+  apply composite_cols_nodup.
+Qed.
+
+(** every reachable multi environment: the declared spaces are those of the
+    constructor's max-size sample and never change *)
+Theorem reachable_space cfg b p m :
+  reachable cfg b p m ->
+  exists g m0 g', multi_init p b cfg g = Ok (Some m0) g' /\
+    m_space m = i_space (m_inner m0) /\ m_anvec m = i_anvec (m_inner m0) /\
+    nodup_keysb (sp_feats (m_space m)) = true.
+Proof.
+  induction 1 as [g m g' Hi|m g m' g' Hr IH Hs|m l Hr IH].
+  - destruct (multi_init_config _ _ _ _ _ _ Hi) as (A & B & C & D & _).
+    exists g, m, g'. split; [exact Hi|]. split; [exact C|]. split; [exact D|].
+    rewrite C, (iw_space _ _ B). simpl. apply composite_shapes_nodup.
+  - destruct IH as (g0 & m0 & g0' & Hi & C & D & E).
+    destruct (reachable_keeps_config _ _ _ _ Hr) as [K _].
+    destruct (multi_reset_config _ _ _ _ _ _ _ K Hs) as (_ & _ & S1 & S2 & _).
+    exists g0, m0, g0'. rewrite S1, S2. auto.
+  - destruct IH as (g0 & m0 & g0' & Hi & C & D & E). exists g0, m0, g0'. simpl. auto.
+Qed.
